@@ -22,8 +22,15 @@ One *execution* is one asyncio task created by `_wrapper`; it is named after the
 function (`thunder_protection` used directly) or - through `Cache.cache/early/soft(protected=True)`,
 cashews/wrapper/decorators.py `_wrap` - the cache decorator around it: look the key up, on a hit return the
 stored value without running the body (`hit := true`, no suspension point), otherwise run the body and store
-a returned value.  `caching` selects between the two; time does not pass in this model (the harness uses
-TTLs far longer than a run), so a stored value stays a hit.
+a returned value.  `caching` selects between the two.
+
+Time.  The state carries a clock `now` (ticks) that only the `tick d` action moves, and the decorator's `ttl`.
+The clock is read in exactly one place: a value stored by the cache decorator at instant `t` is a hit for a
+later call while `now < t + ttl` (cashews/backends/memory.py `_get`: `if expire_at and expire_at <= time.time():
+... return default`).  Single-flight itself - `tasks`, the join branch, the done-callback - never reads the
+clock: `tick` leaves the table, the executions and every caller as they are, so an execution is joined while
+it is in flight HOWEVER LONG it has been running, in particular longer than `ttl` (Props/C07.lean
+`time_step_is_stutter`, `old_execution_is_still_joined`).
 
 Asyncio facts assumed (trusted base, DESIGN §3): (A1) a task runs without preemption up to its next
 suspension point, so `call` (everything `_wrapper` does before its `await`) is one atomic step; (A2) a caller
@@ -45,11 +52,14 @@ namespace CashewsVerif.SingleFlight
 /-- function update -/
 def upd {β : Type} (f : Nat → β) (a : Nat) (b : β) : Nat → β := fun x => if x = a then b else f x
 
-/-- what an execution delivers: a returned value, a raised exception (class number), or - the execution
-itself ended cancelled (A3) - `CancelledError` -/
+/-- what an execution delivers: a returned value, a raised exception, or - the execution itself ended
+cancelled (A3) - `CancelledError`.  An exception is the *object* the body raised: its class (`cls`) and an
+opaque `payload` standing for everything else a caller can see of it (constructor arguments, message,
+attributes, `__cause__`, notes).  The model never looks inside or rebuilds it: `await asyncio.shield(task)`
+re-raises `task.exception()` itself, so whatever is delivered is delivered with class and payload unchanged. -/
 inductive Outcome where
   | ret (v : Nat)
-  | exc (cls : Nat)
+  | exc (cls : Nat) (payload : Nat)
   | cancelled
   deriving DecidableEq, Repr
 
@@ -74,14 +84,16 @@ structure Caller where
 
 structure SfSt where
   caching : Bool                     -- executions run a cache decorator (Cache facade) / the bare function
+  ttl : Nat                          -- the decorator's ttl, in ticks: how long a stored result stays a hit
+  now : Nat                          -- the clock, in ticks; moved by `tick` only
   table : Nat → Option Nat           -- `tasks`: key ↦ execution in flight
   execs : Nat → Option Exec
   callers : Nat → Option Caller
-  cached : Nat → Option Nat          -- the cache, as far as it matters here: key ↦ stored result
+  cached : Nat → Option (Nat × Nat)  -- the cache, as far as it matters here: key ↦ (stored result, instant it expires)
   created : List Nat                 -- ids of the executions created so far, in order
 
-def init (caching : Bool) : SfSt :=
-  { caching := caching, table := fun _ => none, execs := fun _ => none, callers := fun _ => none,
+def init (caching : Bool) (ttl : Nat) : SfSt :=
+  { caching := caching, ttl := ttl, now := 0, table := fun _ => none, execs := fun _ => none, callers := fun _ => none,
     cached := fun _ => none, created := [] }
 
 inductive Act where
@@ -89,6 +101,7 @@ inductive Act where
   | bodyStep (e : Nat)                   -- the body of `e` passes one suspension point
   | finish (e : Nat)                     -- the body of `e` returns / raises / ends cancelled; done-callbacks run
   | cancel (c : Nat)                     -- `c`'s task is cancelled
+  | tick (d : Nat)                       -- `d` ticks of time pass (bodies stay suspended where they are)
   deriving DecidableEq, Repr
 
 /-- The arguments of one call of the decorated function, as far as single-flight can see them: the part the
@@ -105,9 +118,18 @@ def cacheKey (a : Args) : Nat := a.keyed
 /-- a call with full arguments is a call with their cache key -/
 def Act.callWith (c : Nat) (a : Args) (n : Nat) (o : Outcome) : Act := .call c (cacheKey a) n o
 
+/-- `backend.get(key)` by the cache decorator: the stored value, unless it has expired (Memory: gone as soon as
+`expire_at <= time.time()`); nothing when the executions run the bare function -/
+def lookupCached (s : SfSt) (key : Nat) : Option Nat :=
+  if s.caching then
+    match s.cached key with
+    | some (v, exp) => if s.now < exp then some v else none
+    | none => none
+  else none
+
 /-- the execution a creating call starts: a hit of the cache decorator, or the scripted body -/
 def newExec (s : SfSt) (key n : Nat) (o : Outcome) : Exec :=
-  match (if s.caching then s.cached key else none) with
+  match lookupCached s key with
   | some v => { key := key, remaining := 0, outcome := .ret v, finished := false, hit := true }
   | none => { key := key, remaining := n, outcome := o, finished := false, hit := false }
 
@@ -150,8 +172,8 @@ def stepFinish (s : SfSt) (e : Nat) : SfSt :=
                callers := deliver s.callers e x.outcome,
                cached :=                                    -- cache decorator: `backend.set(key, result)` for a returned value
                  match x.outcome with
-                 | .ret v => if s.caching = true ∧ x.hit = false then upd s.cached x.key (some v) else s.cached
-                 | .exc _ => s.cached
+                 | .ret v => if s.caching = true ∧ x.hit = false then upd s.cached x.key (some (v, s.now + s.ttl)) else s.cached
+                 | .exc _ _ => s.cached
                  | .cancelled => s.cached }
 
 def stepCancel (s : SfSt) (c : Nat) : SfSt :=
@@ -165,6 +187,7 @@ def step (s : SfSt) : Act → SfSt
   | .bodyStep e => stepBody s e
   | .finish e => stepFinish s e
   | .cancel c => stepCancel s c
+  | .tick d => { s with now := s.now + d }       -- nothing else: single-flight does not read the clock
 
 def run (s : SfSt) (tr : List Act) : SfSt := tr.foldl step s
 
@@ -199,7 +222,9 @@ def bodyStarts (s : SfSt) (key : Nat) : Nat :=
 Between two quiescent points of the event loop the harness releases a *burst* of parked tasks (callers at
 their start, bodies at a scripted suspension point); they run in release order, each up to its next
 suspension, and then every body that has no suspension point left runs to completion.  A burst is therefore
-a list of `call` / `bodyStep` / `cancel` actions followed by `finish` for every execution that can finish. -/
+a list of `call` / `bodyStep` / `cancel` actions followed by `finish` for every execution that can finish.
+A time step of the schedule is a burst of its own, `[tick d]`: the clock moves between two quiescent points
+while every body stays suspended where it is (`settle` after it finishes nothing new). -/
 
 def settle (s : SfSt) : SfSt := run s (s.created.map Act.finish)
 
@@ -219,5 +244,6 @@ def enabled (s : SfSt) : Act → Bool
     | none => true
     | some ⟨_, .waiting⟩ => true
     | some _ => false
+  | .tick _ => true
 
 end CashewsVerif.SingleFlight
